@@ -348,7 +348,7 @@ class C07(Check):
             Variant("derivative-name-mismatch", MOD, GEN, "k=f'd{variable}dt'", "k=f'd{variable}'", expect="G9|"),
             Variant("derivative-sum-sign", "meta/sympy_tools.py", "stoichiometries_to_sympy", "expr = expr + rxn_stoich * sympy.Symbol(rxn_name)", "expr = expr - rxn_stoich * sympy.Symbol(rxn_name)", expect="G8|"),
             Variant("rust-ignores-free-parameters", MOD, "generate_model_code_rs", "free_parameters=free_parameters", "free_parameters=None", expect="G7|"),
-            Variant("free-parameters-still-assigned", MOD, GEN, "    if free_parameters is not None:\n        for key in free_parameters:\n            parameters.pop(key)\n", "", expect="G7|"),
+            Variant("free-parameters-still-assigned", MOD, GEN, "        for key in free_parameters:\n            parameters.pop(key)\n", "", expect="G7|"),
         ]
 
     def must_stay_silent(self):
